@@ -7,7 +7,7 @@ verus! {
 
 global size_of usize == 8;
 
-pub struct BindgenOptions { pub convert_floats: bool, pub enable_cxx_namespaces: bool }
+pub struct BindgenOptions { pub convert_floats: bool, pub enable_cxx_namespaces: bool, pub size_t_is_usize: bool }
 
 #[verifier::external_body]
 pub struct BindgenContext { _p: core::marker::PhantomData<()> }
@@ -52,6 +52,10 @@ pub uninterp spec fn ty_path(t: Tok) -> Option<Seq<char>>;  // Some(p): a user/b
 #[verifier::external_body] pub fn ty_custom(name: &str) -> (r: Tok)
     ensures ty_path(r) == Some(name@), ty_cname(r).is_none(),
 { unimplemented!() }
+
+// utils::primitive_ty: the Rust primitive type spelled `name` (ctx.rust_ident_raw(name))
+pub uninterp spec fn ty_prim_name(t: Tok) -> Seq<char>;
+#[verifier::external_body] pub fn primitive_ty(ctx: &BindgenContext, name: &str) -> (r: Tok) ensures ty_prim_name(r) == name@ { unimplemented!() }
 
 // debug_assert!(false, ..): a debug-build panic, so an obligation
 pub fn debug_assert_stub(b: bool) requires b {}
